@@ -455,12 +455,14 @@ impl Client {
     md: u8,
   ) -> bool {
     let Evaluation { output, proof } = eval;
+    // A missing proof or an undecodable point cannot be verified.
+    let (proof, output, input) =
+      match (proof.as_ref(), output.decompress(), input.decompress()) {
+        (Some(proof), Some(output), Some(input)) => (proof, output, input),
+        _ => return false,
+      };
     if let Ok(public_value) = public_key.get_combined_pk_value(md) {
-      return proof.as_ref().unwrap().verify_batch(
-        &public_value.into(),
-        &[output.decompress().unwrap()],
-        &[input.decompress().unwrap()],
-      );
+      return proof.verify_batch(&public_value.into(), &[output], &[input]);
     }
     false
   }
